@@ -190,31 +190,8 @@ func (e *Engine) caseSplit(hyps []*smt.Term, goal *smt.Term, sk []*smt.Term) []s
 	if selIdx == nil || len(stores) < 3 || len(stores) > 400 {
 		return whole
 	}
-	var out []subgoal
-	var residual []*smt.Term
-	for _, a := range stores {
-		val := a
-		if base != nil {
-			val = c.Sub(a, base)
-		}
-		m := map[*smt.Term]*smt.Term{theSk: val}
-		var hs []*smt.Term
-		for _, h := range hyps {
-			hs = append(hs, c.Subst(h, m))
-		}
-		var nsk []*smt.Term
-		for _, s := range sk {
-			if s == theSk {
-				nsk = append(nsk, val)
-			} else {
-				nsk = append(nsk, s)
-			}
-		}
-		out = append(out, subgoal{hs, c.Subst(goal, m), nsk})
-		residual = append(residual, c.Not(c.Eq(selIdx, a)))
-	}
-	// residual case: the address differs from every store address, so reads at it see
-	// through the stores (rewritten syntactically to keep the query small).
+	// strip: reads at selIdx see through all stores of the chain (valid when the
+	// address differs from every store address).
 	inSet := map[*smt.Term]bool{}
 	for _, a := range stores {
 		inSet[a] = true
@@ -252,15 +229,8 @@ func (e *Engine) caseSplit(hyps []*smt.Term, goal *smt.Term, sk []*smt.Term) []s
 		cache[t] = r
 		return r
 	}
-	// Contiguous store addresses first..first+N-1. With d = first-base the index of
-	// the first store, the residual is decomposed into solver-checked pieces that avoid
-	// a pigeonhole over bit-blasted disequalities:
-	//   side : hyps |- 0 <= d <= 2^62
-	//   lemma: 0 <= d <= 2^62 |- x < d  or  x >= d+N  or  x-d <u N      (context free)
-	//   lo   : hyps, sk <  d   |- address outside the range  and  strip(goal)
-	//   hi   : hyps, sk >= d+N |- address outside the range  and  strip(goal)
-	// In the remaining case sk-d <u N the address equals one of the store addresses,
-	// which the per-store cases above cover.
+	// contiguity of the store addresses
+	var contFirst, contN *smt.Term
 	if b0, k0 := c.SplitAdd(stores[0]); b0 != nil {
 		lo, hi := k0, k0
 		okc := true
@@ -280,8 +250,64 @@ func (e *Engine) caseSplit(hyps []*smt.Term, goal *smt.Term, sk []*smt.Term) []s
 			}
 		}
 		if okc && uint64(len(ks)) == hi-lo+1 {
-			n := c.BVC(64, hi-lo+1)
-			first := c.Add(b0, c.BVC(64, lo))
+			contFirst = c.Add(b0, c.BVC(64, lo))
+			contN = c.BVC(64, hi-lo+1)
+		}
+	}
+	if contFirst != nil {
+		// pre-check: is the address provably outside the written range? (one cheap
+		// arithmetic query); then the whole goal reads through the stores.
+		inRange := c.Ult(c.Sub(selIdx, contFirst), contN)
+		var hs []*smt.Term
+		for _, h := range hyps {
+			if !mentionsArrays(h) {
+				hs = append(hs, h)
+			}
+		}
+		asserts := append(append([]*smt.Term(nil), hs...), inRange)
+		r := smt.Solve(c.Script("ALL", asserts, nil, false), smt.DefaultSolvers(5), 5*time.Second, 1)
+		e.Stats["split-prechecks"]++
+		if r.Status == "unsat" {
+			e.Stats["split-prechecks-outside"]++
+			return []subgoal{{hyps, strip(goal), sk}}
+		}
+	}
+	var out []subgoal
+	var residual []*smt.Term
+	for _, a := range stores {
+		val := a
+		if base != nil {
+			val = c.Sub(a, base)
+		}
+		m := map[*smt.Term]*smt.Term{theSk: val}
+		var hs []*smt.Term
+		for _, h := range hyps {
+			hs = append(hs, c.Subst(h, m))
+		}
+		var nsk []*smt.Term
+		for _, s := range sk {
+			if s == theSk {
+				nsk = append(nsk, val)
+			} else {
+				nsk = append(nsk, s)
+			}
+		}
+		out = append(out, subgoal{hs, c.Subst(goal, m), nsk})
+		residual = append(residual, c.Not(c.Eq(selIdx, a)))
+	}
+	// Contiguous store addresses first..first+N-1. With d = first-base the index of
+	// the first store, the residual is decomposed into solver-checked pieces that avoid
+	// a pigeonhole over bit-blasted disequalities:
+	//   side : hyps |- 0 <= d <= 2^62
+	//   lemma: 0 <= d <= 2^62 |- x < d  or  x >= d+N  or  x-d <u N      (context free)
+	//   lo   : hyps, sk <  d   |- address outside the range  and  strip(goal)
+	//   hi   : hyps, sk >= d+N |- address outside the range  and  strip(goal)
+	// In the remaining case sk-d <u N the address equals one of the store addresses,
+	// which the per-store cases above cover.
+	if contFirst != nil {
+		{
+			n := contN
+			first := contFirst
 			d := first
 			if base != nil {
 				d = c.Sub(first, base)
